@@ -28,7 +28,9 @@ Inductive action :=
 | ASInt (s : series col) (k : Z)
 | ASDuring (s : series col) (ea : eargs)
 | AEGet (ev : events col) (key : ekey_arg)
-| AEpochs (ea : eargs).
+| AEpochs (ea : eargs)
+| AEpochsGet (ea : eargs) (key : ekidx)                       (* Epochs(...)[key] *)
+| ASDuringGet (s : series col) (ea : eargs) (key : ekidx).    (* series.during(Epochs(...)[key]) *)
 
 Inductive outcome :=
 | OIdx (i : idx)
@@ -78,6 +80,9 @@ Definition model_outcome (a : action) : outcome :=
                          (fun r => OEvents (payload (ev_time r)) (tunit (ev_time r)) (ev_data r)))
       end
   | AEpochs ea => of_x (epochs_ctor ea) OEpochs
+  | AEpochsGet ea key => with_epochs ea (fun e => of_x (epochs_getitem e key) OEpochs)
+  | ASDuringGet s ea key => with_epochs ea (fun e => of_x (epochs_getitem e key)
+                                                         (fun e' => of_x (series_during s e') ODuring))
   end.
 
 Definition xerr_eqb (a b : xerr) : bool :=
